@@ -58,6 +58,7 @@ STUB = ['event loop + clocks (monotonic and wall)', 'TCP', 'DNS', 'executor',
 PROBES = ['accept_expected', 'reject_expected', 'cert_cred', 'plain_cred',
           'hashed_entry', 'wildcard_entry', 'negated_entry', 'cidr_entry',
           'port_form', 'revoked_hit', 'clock_step', 'lying_server',
+          'host_spelled_in_capitals',
           'cert_time_reject', 'alias_target']
 
 HOST, ALIAS, ADDR = 'server.example.com', 'alias.example.org', '10.1.2.3'
@@ -200,6 +201,7 @@ def gen_plan(rng):
                     'latency_ms': rng.choice([0, 0, 200]), 'capacity': 0},
         'port': port, 'target': target, 'entries': entries, 'cred': cred,
         'clock_step': rng.choice([0, 0, 0, 5, -5, 4000, -4000]),
+        'spelling': rng.choice([None, None, None, 'upper', 'mixed']),
     }
 
 
@@ -241,6 +243,9 @@ def valid_plan(plan):
         c = plan['cred']
 
         if c['kind'] == 'cert' and c['before'] <= c['after']:
+            return False
+
+        if plan.get('spelling') not in (None, 'upper', 'mixed'):
             return False
 
         return c['kind'] in ('plain', 'cert', 'lying')
@@ -388,6 +393,15 @@ def run_plan(plan, sched_seed=None, sched_replay=None):
     port = plan['port']
     cred = plan['cred']
     target = {'host': HOST, 'alias': ALIAS, 'addr': ADDR}[plan['target']]
+
+    if plan.get('spelling') and plan['target'] != 'addr':
+        # host names are case-insensitive: the same host, spelled otherwise
+        # (known_hosts lines are written in lower case)
+        target = target.upper() if plan['spelling'] == 'upper' else \
+            ''.join(c.upper() if i % 2 else c for i, c in enumerate(target))
+        net.dns[target] = [ADDR]
+        sim.probes['host_spelled_in_capitals'] += 1
+
     res = {'conn': None, 'exc': None, 'peer': None, 't_connect': None}
     now0 = int(seams.wall_now())
 
